@@ -120,7 +120,9 @@ def gen(seed, tier):
     steps = []
     # touch: committed without a change of state (_p_changed = True): the
     # committed revision then has the bytes of the other writer's base
-    kinds = ('plain', 'plain', 'ref', 'ref_na', 'wref', 'touch')
+    # same: the new state is a function of the base state only, so that
+    # two writers starting from one revision produce *equal* states
+    kinds = ('plain', 'plain', 'ref', 'ref_na', 'wref', 'touch', 'same')
     for _ in range(r.randint(1, 4)):
         pat = r.choice(('pair', 'pair', 'chain', 'random'))
         if pat == 'random':
@@ -246,6 +248,12 @@ def run_conn(case):
                 if step[3] == 'touch' and not o._p_changed:
                     o._p_changed = True
                     trace.append('t%d' % ci)
+                    continue
+                if step[3] == 'same':
+                    o.token = ['s', dbh.hashable(o.token)]
+                    o.n = o.n + 1
+                    o.log = o.log + ['s%d' % o.n]
+                    trace.append('s%d' % ci)
                     continue
                 o.token = t
                 o.n = o.n + 1
